@@ -250,3 +250,15 @@ PROPS["C06"]["claim"] = PROPS["C06"]["explanation"] = PROPS["C06"]["explanation"
     " The environment branch is no longer assumed: take_argument / ParseFlag::eval are proved to report absence (Missing/NoEnv, catchable) only when the item is neither on the line nor set through a declared variable.")
 PROPS["C12"]["claim"] = PROPS["C12"]["explanation"] = PROPS["C12"]["explanation"] + (
     " The item a flag/argument is listed as is built from its first short and first long name, its first variable, its metavariable and help (ShortLong::try_from, NamedArg::flag_item, ParseArgument::item: real bodies).")
+
+# ---- C15 after the Shell quoting wrapper came under contract
+prop("C15", "proof",
+     "the quoting mechanism is proved for every string (autocomplete configuration): `impl Display for Shell` (the wrapper every bash/zsh renderer passes data through; real body) writes "
+     "exactly `quoted(text)` = the text inside single quotes with each `'` spelled `'\\''`, and lemma.C15.shell_word_is_data shows that a POSIX shell word reader (single-quoted stretches literal, "
+     "backslash-escape outside quotes, anything else outside quotes rejected as 'not plain data') reads that output back as ONE complete word whose value is the original text - nothing is split, "
+     "expanded, executed or left unterminated, for all texts including quotes, newlines, `$(..)`, backslashes and non-ASCII. The same function is cross-checked by Kani (K05) on all ASCII strings of "
+     "length 2 (quick) and 3 (thorough). What is NOT decided: that every renderer passes every data string through `Shell` (defect D2 was exactly such a missed call site, found by reading), "
+     "the one-directive-per-line structure (D3), fish/elvish escaping, 'each candidate exactly once'.",
+     ["call sites: render_bash/zsh/fish/elvish are `format!`/`writeln!` code outside both tools (D2, D3 were there)", "fish and elvish quoting rules", "each candidate / shell completer appears exactly once", "that sourcing the whole output only adds candidates (needs a model of compadd/complete/_filedir)"],
+     note=VERUS_NOTE, needs_autocomplete=True,
+     technique="Verus proof of the real Shell Display impl against `quoted` + inverse lemma against a POSIX single-quote word reader; Kani bounded model checking of the same function (K05)")
